@@ -447,7 +447,11 @@ pub fn run(ctx: &Ctx) -> Report {
     rep.floor("sub:widened-to-8-byte-length", scale(5_000).max(1));
 
     let mut st = Stats::new();
-    spawn_watchdog(&st, ctx.shard);
+    if ctx.mode != "miri" {
+        // (an interpreter 10^4 times slower legitimately spends minutes on one input; there
+        // the driver's per-process time-out is the only guard)
+        spawn_watchdog(&st, ctx.shard);
+    }
     let base = ctx.shard_seed();
 
     // ---------------- (A) round trips ----------------
